@@ -111,7 +111,10 @@ func (d *csvDoc) serialise(rng *rand.Rand) {
 	d.bytes = out
 }
 
-var cellInts = []string{"0", "1", "-1", "42", "+7", "007", "-0", "9223372036854775807", "123456"}
+var cellInts = []string{"0", "1", "-1", "42", "+7", "007", "-0", "9223372036854775807", "123456", "-9223372036854775808", "00000000000000000000012", "+0"}
+
+// integers at and beyond the limits of int: they do not parse as int, an untyped column holding one is a float column
+var cellBigInts = []string{"9223372036854775808", "-9223372036854775809", "18446744073709551615", "18446744073709551616", "18446744073709551621", "20000000000000000000", "99999999999999999999", "-18446744073709551616", "123456789012345678901234567890"}
 var cellFloats = []string{"1.5", "-0.25", "1e3", "", "NaN", "Inf", "-Inf", ".5", "5.", "1E-2", "0x1p-2", "3.14159", "1e400", "4.9e-324"}
 var cellBools = []string{"true", "false", "TRUE", "False", "t", "F", "T"}
 var cellTexts = []string{"a", "abc", "", " ", " a", "a ", "a b", "x,y", "a;b", "say \"hi\"", "\"", "\"\"", "\"start", "end\"", "\"both\"", "line\nbreak", "\n", "\nx", "x\n", "a\n\"b\",c\n", "é", "日本", "\xff\xfe", "tab\there", "1x", "true1", "null", "'q'", "a\"\"b", ",", ",,", "\",\"", "#", "\\", "\\\"", "a|b", "\t"}
@@ -146,7 +149,7 @@ func longCell(rng *rand.Rand) string {
 func genDoc(rng *rand.Rand, class string) *csvDoc {
 	d := &csvDoc{headers: true, delim: ',', finalNL: rng.Intn(2) == 0, crlf: rng.Intn(3) == 0, quoting: rng.Intn(3), blankAt: map[int]bool{}, types: map[int]string{}, enumVals: map[int][]string{}}
 	if rng.Intn(3) == 0 {
-		d.delim = []byte{';', '\t', '|', ' ', ':', 'x', 0x01}[rng.Intn(7)]
+		d.delim = []byte{';', '\t', '|', ' ', ':', 'x', 0x01, 0x80, 0xa7, 0xc3, 0xe6, 0xff, 0x7f, '0', '.', '-'}[rng.Intn(16)]
 	}
 	ncols := 1 + rng.Intn(5)
 	nrows := rng.Intn(7)
@@ -167,6 +170,10 @@ func genDoc(rng *rand.Rand, class string) *csvDoc {
 		if class == "manyrows" {
 			colClass[i] = []string{"int", "text", "float"}[rng.Intn(3)]
 		}
+	}
+	bigInts := make([]bool, ncols) // int-like columns that may hold integers beyond the int range
+	for i := range bigInts {
+		bigInts[i] = rng.Intn(4) == 0
 	}
 	namePool := []string{"a", "b", "c", "col", "x y", "n,1", "q\"r", "é", "A", "long_column_name", "1", "line\nname", " lead", "z"}
 	used := map[string]bool{}
@@ -208,6 +215,9 @@ func genDoc(rng *rand.Rand, class string) *csvDoc {
 			switch colClass[i] {
 			case "int":
 				row[i] = cellInts[rng.Intn(len(cellInts))]
+				if bigInts[i] && rng.Intn(3) == 0 {
+					row[i] = cellBigInts[rng.Intn(len(cellBigInts))]
+				}
 			case "float":
 				row[i] = cellFloats[rng.Intn(len(cellFloats))]
 				if rng.Intn(3) == 0 {
@@ -249,7 +259,7 @@ func genDoc(rng *rand.Rand, class string) *csvDoc {
 		if name == "" && d.alias == "" {
 			continue
 		}
-		if nrows == 0 || rng.Intn(4) == 0 || ((d.rename || name == "") && rng.Intn(2) == 0) {
+		if nrows == 0 || rng.Intn(4) == 0 || ((d.rename || name == "") && rng.Intn(2) == 0) || (bigInts[i] && colClass[i] == "int" && rng.Intn(2) == 0) {
 			switch colClass[i] {
 			case "int":
 				d.types[i] = []string{"int", "float", "string"}[rng.Intn(3)]
@@ -354,6 +364,11 @@ func (d *csvDoc) expected() (*model.Frame, []string, error) {
 			case model.KInt:
 				v, err := strconv.Atoi(s)
 				if err != nil {
+					if typ, declared := d.types[i]; declared && typ == "int" {
+						if _, ferr := strconv.ParseFloat(s, 64); ferr == nil || errors.Is(ferr, strconv.ErrRange) {
+							return nil, nil, errDeclaredIntOutOfRange
+						}
+					}
 					return nil, nil, fmt.Errorf("generator error: declared int cell %q", s)
 				}
 				col.I[r] = v
@@ -388,6 +403,10 @@ func (d *csvDoc) expected() (*model.Frame, []string, error) {
 }
 
 var errSkip = errors.New("skip")
+
+// errDeclaredIntOutOfRange: a column declared int holds an integer that does not fit an int; the only faithful outcomes
+// are an error (the document cannot be represented under the requested types) - never a frame with another number in the cell.
+var errDeclaredIntOutOfRange = errors.New("declared int column holds an integer outside the int range")
 
 func (d *csvDoc) config() []csv.ConfigFunc {
 	fns := []csv.ConfigFunc{csv.EmptyNull(d.emptyNull), csv.IgnoreEmptyLines(d.ignoreEmpty)}
@@ -637,6 +656,25 @@ func runC12(c *fw.Case) {
 	want, _, err := d.expected()
 	if err == errSkip {
 		c.Count("skipped_range_error_docs", 1)
+		return
+	}
+	if err == errDeclaredIntOutOfRange {
+		c.Count("docs_with_out_of_range_cell_in_declared_int_column", 1)
+		c.Eval(1)
+		c.DescribeLazy(func() interface{} { return d.describe() })
+		var res qframe.QFrame
+		rd := &fragReader{data: d.bytes, eofWith: rng.Intn(2) == 0, limit: 10*len(d.bytes) + 1000}
+		if rng.Intn(2) == 0 {
+			for i := 1; i < len(d.bytes); i += 1 + rng.Intn(7) {
+				rd.cuts = append(rd.cuts, i)
+			}
+		}
+		if !c.GuardFail("declared-int-out-of-range", "ReadCSV", func() { res = qframe.ReadCSV(rd, d.config()...) }) {
+			return
+		}
+		if res.Err == nil {
+			c.Fail("accepts-out-of-range-int", "a column declared int holds an integer outside the int range, ReadCSV returned a frame of %d rows without error (the cell cannot hold the number the document denotes)", res.Len())
+		}
 		return
 	}
 	if err != nil {
